@@ -303,6 +303,40 @@ fn inner(l: &mut L1, focus: Focus, seed: u64, ctx: &RunCtx, index: u64) -> Resul
             let hs: Vec<_> = have.iter().map(|h| (h.0.clone(), h.1, h.2)).collect();
             let ws: Vec<_> = want.iter().map(|h| (h.0.clone(), h.1, h.2)).collect();
             let sig = if hs.iter().any(|h| !ws.contains(h)) { "withdrawn-or-dead-claim-still-in-table" } else if ws.iter().any(|h| !hs.contains(h)) { "announced-claim-missing" } else { "claim-expiry-differs" };
+            if focus == Focus::C11 {
+                // C11 speaks about lookups: a table whose claims differ from the announcement history is carried on to
+                // the first moment where table and history disagree about what is live, swept, and asked for every
+                // address; the run ends there
+                let mut at: Option<i64> = None;
+                for h in have.iter().filter(|h| !want.contains(h)) {
+                    // in the table: (not) in the history with another expiry
+                    let other = want.iter().find(|x| x.0 == h.0 && x.1 == h.1 && x.2 == h.2).map(|x| x.3);
+                    let t = match other {
+                        Some(o) => o.min(h.3) + 1,
+                        None => m.now,
+                    };
+                    at = Some(at.map(|a: i64| a.min(t)).unwrap_or(t));
+                }
+                for x in want.iter().filter(|x| !have.iter().any(|h| h.0 == x.0 && h.1 == x.1 && h.2 == x.2)) {
+                    let _ = x;
+                    at = Some(at.map(|a: i64| a.min(m.now)).unwrap_or(m.now));
+                }
+                let at = at.unwrap_or(m.now).max(m.now);
+                m.now = at;
+                SimClock::set(at);
+                m.sweep();
+                io::guarded(|| t.housekeep()).map_err(|e| Violation::new("no-panic", "table-panics", e))?;
+                l.count("tbl_divergence_followed_to_a_lookup");
+                for a in &addrs {
+                    let adm = m.lookup(a);
+                    let got = io::guarded(|| t.lookup(*a)).map_err(|e| Violation::new("no-panic", "table-panics", e))?;
+                    if !adm.contains(&got) {
+                        return viol(l, focus, Focus::C11, "next-hop", if got.is_none() { "live-claim-not-used" } else if adm == vec![None] { "dead-claim-or-decision-used" } else { "not-most-specific-live-claim" }, format!("step {}: the table's claims {:?} differ from the announcement history {:?}; at t={} a lookup of {} returns {:?}, the history admits {:?}", step, have.iter().map(|h| (h.1, h.2.port(), h.3)).collect::<Vec<_>>(), want.iter().map(|h| (h.1, h.2.port(), h.3)).collect::<Vec<_>>(), at, a, got, adm));
+                    }
+                }
+                l.count("tbl_divergence_not_visible_to_lookups");
+                return Ok(());
+            }
             return viol(l, focus, Focus::C12, "claims-equal-announcement", sig, format!("step {}: table holds claims {:?}, the announcement history gives {:?}", step, have.iter().map(|h| (h.1, h.2.port(), h.3)).collect::<Vec<_>>(), want.iter().map(|h| (h.1, h.2.port(), h.3)).collect::<Vec<_>>()));
         }
         let mut hc: Vec<(Vec<u8>, SocketAddr, i64)> = snap.cache.iter().map(|c| (bytes(&c.0), c.1, c.2)).collect();
@@ -316,7 +350,10 @@ fn inner(l: &mut L1, focus: Focus, seed: u64, ctx: &RunCtx, index: u64) -> Resul
         m.cache.retain(|k, _| hc.iter().any(|h| h.0 == *k));
         if hc != wc {
             let stale = hc.iter().any(|h| !wc.iter().any(|w| w.0 == h.0 && w.1 == h.1));
-            let prop = if stale && hc.iter().any(|h| !m.claims.iter().any(|c| c.peer == h.1) && !wc.iter().any(|w| w.0 == h.0)) { Focus::C12 } else { Focus::C11 };
+            // "decisions cached from a claim disappear with it" is stated by C11 (cache lifetime) and by C12 (routes
+            // track announcements): either check reports it
+            let prop = if focus == Focus::C12 { Focus::C12 } else { Focus::C11 };
+            let _ = stale;
             return viol(l, focus, prop, "cache-lifetime", if stale { "cached-decision-outlives-its-source" } else { "cached-decision-lifetime-differs" }, format!("step {}: table caches {:?}, the decision history gives {:?} (now {})", step, hc.iter().map(|h| (h.0.clone(), h.1.port(), h.2)).collect::<Vec<_>>(), wc.iter().map(|h| (h.0.clone(), h.1.port(), h.2)).collect::<Vec<_>>(), m.now));
         }
     }
